@@ -1,6 +1,6 @@
 From Coq Require Import ExtrOcamlBasic NArith ZArith List String.
 From LV Require Import lib.Conv model.LockDiscipline gen.LockTable model.Wlru model.Semaphore spec.KvSpec
-  model.CrashBase model.SyncedPool model.LinObjects.
+  model.CrashBase model.SyncedPool model.LinObjects model.Buffer.
 (* evaluated inside Coq: names as character codes, [method_ok] already computed per row *)
 Definition lock_table_x : list (list N * list N * bool * bool) :=
   Eval vm_compute in map row_summary lock_table.
@@ -12,7 +12,15 @@ Definition lru_step : Wlru.cache N N -> Wlru.op N N -> Wlru.cache N N * Wlru.res
 Definition lru_weight : Wlru.cache N N -> N := @Wlru.weight N N.
 Definition lru_len : Wlru.cache N N -> N := @Wlru.len N N.
 Definition sem_try : metric -> metric -> metric -> option metric := try_acquire true.
-Definition sem_release (h c w : metric) : metric := held (fst (release (mkS h c nil nil) w)).
+Definition sem_release (h c w : metric) : metric := Semaphore.held (fst (Semaphore.release (mkS h c nil nil) w)).
+(* C14's ordering buffer (repaired version), callbacks as oracles over the log *)
+Definition buf_step := Buffer.step.
+Definition buf_st0 := Buffer.st0.
+Definition buf_inc := Buffer.inc.
+Definition buf_eid := Buffer.eid.
+Definition buf_log := Buffer.log.
+Definition buf_num := Buffer.total_num.
+Definition buf_size := Buffer.total_size.
 (* C22's Flushable and C25's SyncedPool, assembled into step functions in model/LinObjects.v *)
 Extraction "model.ml" conv_roots lock_table_x lru_new lru_step lru_weight lru_len sem_try sem_release mkM mnum msize
-  fl_step f_init pl_step p_init.
+  fl_step f_init pl_step p_init buf_step buf_st0 buf_inc buf_eid buf_log buf_num buf_size.
